@@ -25,6 +25,7 @@ from .rules_loops import loop_carried_state
 DECIDED = [
     "ESC-2 raise summaries of XMLReader.from_string/from_file and DictReader.to_odml contain only ParserException / InvalidVersionException",
     "LAYER-1 every reader call into the model layer (create with parsed arguments, append, setters) is inside try/except Exception -> self.error",
+    "LAYER-2 parsed children are attached one by one (a refusal costs one child, not the rest of the list)",
     "ERR-1 error() raises ParserException unless ignore_errors, then it only warns; warn() cannot raise; _handle_version raises only the two parser exceptions",
     "LIB-1 ET.XML / ET.parse are wrapped: XMLSyntaxError -> ParserException",
     "TOT-1 parse_cardinality (both) is total on every order type of input (no raise, normal form or None)",
@@ -100,6 +101,21 @@ def run(prog, rep):
                               "model layer leaks as is" % (f.short, unparse(c)[:50], tg[0].short), where(f, c),
                               witness="e.g. two sibling elements with the same name / an unparsable date: KeyError or ValueError instead of ParserException")
     rep.floor("LAYER-1", n_calls, 6, "reader calls into the model layer")
+    rep.rule("LAYER-2", "children are attached one by one: no reader function hands a whole list of parsed children to the model layer's "
+                        "extend() under a single handler - the first refusal would drop all remaining children in lenient mode")
+    bulk = []
+    for f in layer_funcs:
+        for c in calls_in(f.node):
+            if isinstance(c.func, ast.Attribute) and c.func.attr == "extend":
+                tg = [t for t in S.targets(c, f) if isinstance(t, FuncInfo) and t.module.name in MODEL_MODULES]
+                if tg:
+                    bulk.append((f, c, tg[0]))
+    if not bulk:
+        rep.ok("LAYER-2", "children are appended individually", "no model layer extend() in the readers", "odml/tools")
+    for f, c, tg in bulk:
+        rep.fail("LAYER-2", "%s|%s" % (f.short, unparse(c.func)), "%s attaches parsed children in bulk with %s (-> %s): in lenient mode one "
+                 "unusable child makes the reader drop all children after it" % (f.short, unparse(c)[:50], tg.short), where(f, c),
+                 witness="a JSON/YAML file with two equally named root Sections followed by valid ones: only the first Section survives a lenient load")
 
     # ----------------------------------------------------------------- ERR-1
     rep.rule("ERR-1", "XMLReader.error / DictReader.error: `if self.ignore_errors: return self.warn(...)` then `raise ParserException`; "
@@ -151,6 +167,19 @@ def run(prog, rep):
                                         ok = True
         rep.check(ok, "LIB-1", "%s wraps %s" % (f.short, fn), "XMLSyntaxError -> ParserException", "%s does not convert lxml syntax errors into ParserException" % f.short, f.where,
                   witness="malformed XML leaks lxml.etree.XMLSyntaxError")
+
+    # the recursive descent of parse_element is bounded by libxml2's own depth limit (256): options that lift it are refused
+    WIDENING = {"huge_tree": True}
+    for f0 in prog.all_functions():
+        if f0.module.name != "odml.tools.xmlparser":
+            continue
+        for c in calls_in(f0.node):
+            if call_name(c).endswith("XMLParser"):
+                wid = [k.arg for k in c.keywords if k.arg in WIDENING and isinstance(k.value, ast.Constant) and k.value.value == WIDENING[k.arg]]
+                rep.check(not wid, "LIB-1", "%s: the XML parser keeps libxml2's depth limit" % f0.short, "no widening option",
+                          "%s builds the parser with %s: documents nested deeper than the interpreter's recursion limit make the recursive "
+                          "reader raise RecursionError instead of ParserException" % (f0.short, wid), where(f0, c),
+                          witness="a well formed odML file with 600 nested <section> elements")
 
     # ----------------------------------------------------------------- TOT-1 / LOOP-1
     cardinality_roundtrip(prog, rep, which=("xml", "dict"))
